@@ -42,9 +42,9 @@ fn result_sig(r: &StepResult) -> String {
 
 fn restart_alphabet(cfgs: &[Cfg], thorough: bool) -> Alphabet {
     let spec = if thorough {
-        AlphabetSpec { cfgs: &["K1", "K2", "K5"], clients: 2, addrs: &["192.0.2.10"], ticks: &[150, 301] }
+        AlphabetSpec { cfgs: &["K1", "K2", "K5"], clients: 2, addrs: &["192.0.2.9"], ticks: &[150, 301] }
     } else {
-        AlphabetSpec { cfgs: &["K1", "K5"], clients: 2, addrs: &["192.0.2.10"], ticks: &[150, 301] }
+        AlphabetSpec { cfgs: &["K1", "K5"], clients: 2, addrs: &["192.0.2.9"], ticks: &[150, 301] }
     };
     build_alphabet(cfgs, &spec)
 }
@@ -226,7 +226,7 @@ fn upgrade_part(rep: &mut Report, thorough: bool) -> (u64, std::collections::BTr
         for h in &chs {
             for s in times {
                 for e in times {
-                    single.push(V0Row { addr: "192.0.2.10", clientid: c.clone(), chaddr: h.clone(), start: s, expiry: e });
+                    single.push(V0Row { addr: "192.0.2.9", clientid: c.clone(), chaddr: h.clone(), start: s, expiry: e });
                 }
             }
         }
@@ -240,11 +240,11 @@ fn upgrade_part(rep: &mut Report, thorough: bool) -> (u64, std::collections::BTr
     for (i, a) in single.iter().enumerate().step_by(step) {
         for (j, b) in single.iter().enumerate().step_by(step * 3 + 1) {
             let mut b = b.clone();
-            b.addr = "192.0.2.11";
+            b.addr = "192.0.2.10";
             dbs.push(vec![a.clone(), b.clone()]);
             if (i + j) % 5 == 0 {
                 let mut c = a.clone();
-                c.addr = "192.0.2.12";
+                c.addr = "192.0.2.11";
                 c.clientid = b.clientid.clone();
                 dbs.push(vec![a.clone(), b, c]);
             }
@@ -319,7 +319,7 @@ fn upgrade_part(rep: &mut Report, thorough: bool) -> (u64, std::collections::BTr
             c.execute_batch("CREATE TABLE leases (address TEXT NOT NULL, chaddr BLOB, clientid BLOB, start INTEGER NOT NULL, expiry INTEGER NOT NULL, options BLOB, future_column TEXT, PRIMARY KEY (address)); CREATE TABLE schema_version (key TEXT NOT NULL, version INTEGER NOT NULL, PRIMARY KEY (key));").unwrap();
             c.execute("INSERT INTO schema_version VALUES ('pool', ?1)", rusqlite::params![v]).unwrap();
             if with_rows {
-                c.execute_batch("INSERT INTO leases (address, clientid, start, expiry, future_column) VALUES ('192.0.2.10', x'01', 1, 2, 'x');").unwrap();
+                c.execute_batch("INSERT INTO leases (address, clientid, start, expiry, future_column) VALUES ('192.0.2.9', x'01', 1, 2, 'x');").unwrap();
             }
             drop(c);
             let before = dump_logical(&path);
@@ -363,15 +363,15 @@ pub fn crash_histories(cfgs: &[Cfg]) -> Vec<CrashHistory> {
     };
     vec![
         CrashHistory { name: "fresh-1", v0_rows: false, ops: vec![m(0, 1, None)] },
-        CrashHistory { name: "fresh-offer-request", v0_rows: false, ops: vec![m(0, 1, Some("192.0.2.10")), m(0, 3, Some("192.0.2.10")), m(1, 1, Some("192.0.2.10"))] },
-        CrashHistory { name: "fresh-collide-4", v0_rows: false, ops: vec![m(0, 1, Some("192.0.2.10")), m(1, 1, Some("192.0.2.10")), m(0, 3, Some("192.0.2.10")), m(1, 3, Some("192.0.2.11"))] },
-        CrashHistory { name: "v0-upgrade-2", v0_rows: true, ops: vec![m(0, 1, None), m(1, 3, Some("192.0.2.11"))] },
+        CrashHistory { name: "fresh-offer-request", v0_rows: false, ops: vec![m(0, 1, Some("192.0.2.9")), m(0, 3, Some("192.0.2.9")), m(1, 1, Some("192.0.2.9"))] },
+        CrashHistory { name: "fresh-collide-4", v0_rows: false, ops: vec![m(0, 1, Some("192.0.2.9")), m(1, 1, Some("192.0.2.9")), m(0, 3, Some("192.0.2.9")), m(1, 3, Some("192.0.2.10"))] },
+        CrashHistory { name: "v0-upgrade-2", v0_rows: true, ops: vec![m(0, 1, None), m(1, 3, Some("192.0.2.10"))] },
     ]
 }
 
 fn crash_v0_rows() -> Vec<V0Row> {
     vec![
-        V0Row { addr: "192.0.2.10", clientid: MAC_A.to_vec(), chaddr: Some(MAC_A.to_vec()), start: NOW0 as u32 - 100, expiry: NOW0 as u32 + 200 },
+        V0Row { addr: "192.0.2.9", clientid: MAC_A.to_vec(), chaddr: Some(MAC_A.to_vec()), start: NOW0 as u32 - 100, expiry: NOW0 as u32 + 200 },
         V0Row { addr: "192.0.2.99", clientid: vec![9], chaddr: None, start: 1, expiry: 2 },
     ]
 }
@@ -577,6 +577,19 @@ pub fn run(tier: &str, replay: Option<Value>) -> ! {
     if let Some(case) = replay {
         rep.replay_mode = true;
         let case = if case.get("case").is_some() { case["case"].clone() } else { case };
+        if case["engine"].as_str() == Some("ehist") {
+            match replay_case(&case, &cfgs) {
+                Ok(found) => {
+                    for f in found {
+                        if f.property == "C18" {
+                            rep.violation(f.v);
+                        }
+                    }
+                }
+                Err(e) => rep.machinery_error(format!("replay: {e}")),
+            }
+            rep.finish();
+        }
         match case["part"].as_str() {
             Some("kill") => {
                 let hs = crash_histories(&cfgs);
@@ -617,6 +630,24 @@ pub fn run(tier: &str, replay: Option<Value>) -> ! {
         rep.finish();
     }
     let (hists, steps) = restart_part(&mut rep, &cfgs, thorough);
+    // the same differential in memory over a wider alphabet (4 configurations, two interfaces, a
+    // reservation, named addresses), from the empty store and a two-client store
+    let ll_alpha = longlived_alphabet(&cfgs, thorough);
+    let ll_depth = if thorough { 3 } else { 2 };
+    let mut ll_steps = 0;
+    match longlived_histories(&cfgs, &ll_alpha, &longlived_roots(), ll_depth, true) {
+        Ok((st, found)) => {
+            ll_steps = st.steps;
+            for f in found {
+                if f.property == "C18" {
+                    rep.violation(f.v);
+                }
+            }
+        }
+        Err(e) => rep.machinery_error(format!("long-lived differential: {e}")),
+    }
+    let steps = steps + ll_steps;
+    rep.cov("in_memory_differential", json!({"alphabet_ops": ll_alpha.ops.len(), "depth": ll_depth, "message_steps": ll_steps}));
     let (up_n, up_classes) = upgrade_part(&mut rep, thorough);
     let (kills, kill_classes, samples) = kill_part(&mut rep, &cfgs, thorough);
     clock::unset();
